@@ -51,7 +51,8 @@ REQUIRED = ["ops_executed", "rechecks", "handle_reads", "node_writes", "detach_n
             "worlds_with_other_column_dtypes", "relatives_checked", "mixed_owner_containers",
             "views_built_by_caller", "views_built_from_a_range", "pid_writes_on_tree_copies",
             "long_views_over_unordered_rows", "views_walked_while_editing",
-            "views_compared_under_custom_column_names", "big_tree_relations_checked"]
+            "views_compared_under_custom_column_names", "big_tree_relations_checked",
+            "node_rows_formatted"]
 FLOOR = {"quick": 250, "thorough": 5000}
 SHARDS = {"quick": 8, "thorough": 16}
 
@@ -102,6 +103,17 @@ class World:
             _need(_eq(obj.xyz(), [cols[k][i] for k in "xyz"]) and
                   _eq(obj.xyzr(), [cols[k][i] for k in "xyzr"]), "node-read",
                   f"node {i}: xyz()/xyzr() differ from the owner's columns")
+            # the node as one SWC row (what str / repr / format_swc report)
+            want_row = " ".join([str(int(cols["id"][i])), str(int(cols["type"][i]))] +
+                                [f"{float(cols[k][i]):.4f}" for k in "xyzr"] +
+                                [str(int(cols["pid"][i]))])
+            got_rows = {str(obj), repr(obj), obj.format_swc()}
+            norm = {" ".join(f"{float(tok):.4f}" if "." in tok or "e" in tok else str(int(tok))
+                             for tok in g.split()) for g in got_rows}
+            ctx.count("node_rows_formatted")
+            _need(norm == {want_row}, "node-read", f"node {i}: str / repr / format_swc give "
+                                                   f"{sorted(got_rows)[:2]}, the node's row is "
+                                                   f"{want_row!r}")
             return
         m = len(L)
         _need(len(obj) == m, "view-len", f"{kind}: len = {len(obj)}, refers to {m} nodes")
